@@ -51,3 +51,65 @@ Theorem C19_traversal_depth : forall L cap own ownd buf w a c p r w',
     describe_walk (S (N.to_nat L)) a w' = Ret tt w''.
 Proof. exact HHist2_proofs.C19_traversal_depth. Qed.
 Print Assumptions C19_traversal_depth.
+
+(* ------------------------------------------------------------------------------------------ *)
+(* The guard of _cbor_stack_push as the C source of this run has it (gen/Gen_effects.v,
+   translator/effects.py; Bridge_effects.v): at stack->size = CBOR_MAX_STACK_SIZE (the value a cmake
+   configure of the working tree yields, Gen_config) it returns NULL without asking the allocator;
+   below it makes one request of sizeof(struct _cbor_stack_record) and, when granted, links the
+   record and increments the 64-bit counter.  The decoder's push of the heap model (HOps.push_ctx,
+   whose L is the model's parameter) does exactly that (HPlans_proofs.v). *)
+From Coq Require Import ZArith String List.
+From CB Require Import HItems GenLeafTypes HPlans HPlans_proofs Bridge_effects.
+From CBGen Require Import Gen_effects.
+Import ListNotations.
+Local Open Scope string_scope.
+Local Open Scope list_scope.
+Local Open Scope N_scope.
+
+Theorem C19_code_stack_push_plan : forall sz sub ok, sz < 2^64 -> sub < 2^64 ->
+  G_cbor_stack_push (Z.of_N sz) (Z.of_N sub) ok = stack_push_plan gen_CBOR_MAX_STACK_SIZE sz sub ok.
+Proof. exact bridge_plan_stack_push. Qed.
+Theorem C19_code_stack_pop_plan : forall sz, sz < 2^64 -> G_cbor_stack_pop (Z.of_N sz) = stack_pop_plan sz.
+Proof. exact bridge_plan_stack_pop. Qed.
+Print Assumptions C19_code_stack_push_plan.
+
+Theorem C19_stack_push_follows_plan : forall refuse L res sub stk w,
+  L < 2 ^ 64 -> len stk <= L ->
+  let p := stack_push_plan L (len stk) sub (malloc_ok refuse (nreq w) SZ_REC) in
+  (ret_null p = true ->
+     fieldN "size" p = len stk /\
+     push_ctx refuse L res sub stk w =
+       (decref res ;;; ret (mkhctx stk None true false))
+         (if len stk =? L then w else HCont_proofs.w_refused (EvMalloc SZ_REC None) w) /\
+     p_reqs p = (if len stk =? L then [] else [ReqMalloc (Z.of_N SZ_REC)])) /\
+  (ret_null p = false ->
+     len stk < L /\ p_reqs p = [ReqMalloc (Z.of_N SZ_REC)] /\
+     push_ctx refuse L res sub stk w =
+       Ret (mkhctx ((next w, res, sub) :: stk) None false false) (HCont_proofs.w_malloc SZ_REC (CData SZ_REC) w) /\
+     len ((next w, res, sub) :: stk) = fieldN "size" p /\
+     In (SetInt (PNew 0) "subitems" (Z.of_N sub)) (p_effs p) /\
+     In (SetPtr (PNew 0) "item" (PArg 1)) (p_effs p)).
+Proof. exact stack_push_follows_plan. Qed.
+Print Assumptions C19_stack_push_follows_plan.
+
+(* composed, for the configured limit and the generated plan *)
+Theorem C19_code_stack_push_followed : forall refuse res sub stk w,
+  sub < 2 ^ 64 -> len stk <= gen_CBOR_MAX_STACK_SIZE ->
+  let L := gen_CBOR_MAX_STACK_SIZE in
+  let p := G_cbor_stack_push (Z.of_N (len stk)) (Z.of_N sub) (malloc_ok refuse (nreq w) SZ_REC) in
+  (ret_null p = true ->
+     fieldN "size" p = len stk /\
+     push_ctx refuse L res sub stk w =
+       (decref res ;;; ret (mkhctx stk None true false))
+         (if len stk =? L then w else HCont_proofs.w_refused (EvMalloc SZ_REC None) w) /\
+     p_reqs p = (if len stk =? L then [] else [ReqMalloc (Z.of_N SZ_REC)])) /\
+  (ret_null p = false ->
+     len stk < L /\ p_reqs p = [ReqMalloc (Z.of_N SZ_REC)] /\
+     push_ctx refuse L res sub stk w =
+       Ret (mkhctx ((next w, res, sub) :: stk) None false false) (HCont_proofs.w_malloc SZ_REC (CData SZ_REC) w) /\
+     len ((next w, res, sub) :: stk) = fieldN "size" p /\
+     In (SetInt (PNew 0) "subitems" (Z.of_N sub)) (p_effs p) /\
+     In (SetPtr (PNew 0) "item" (PArg 1)) (p_effs p)).
+Proof. exact code_stack_push_followed. Qed.
+Print Assumptions C19_code_stack_push_followed.
